@@ -206,7 +206,7 @@ PROPS['C12']['quick'] = [('merge:content', 3000)]
 PROPS['C13']['quick'] = [('merge:faults', 160)]
 PROPS['C14']['quick'] = [('merge:concurrent', 3000), ('fs:conc', 1500)]
 PROPS['C15']['quick'] = [('fs:crash', 1000)]
-PROPS['C16']['quick'] = [('fs:spec', 8000)]
+PROPS['C16']['quick'] = [('fs:spec', 40000)]
 PROPS['C19']['quick'] = [('corrupt:general', 8000)]
 
 # C06 also over the real FileSystemDataStore (as DataStore, with an atomic MetaStore) on simos.
